@@ -23,7 +23,8 @@ BOUNDS = {
     "thorough": "adds ignore_elements subsets and attributes on edges/faces",
 }
 OUTSIDE = ("binary STL and PLY (compiled stl_reader / pyminiply; the PLY writer raises NotImplementedError); bit-exactness of CPython's "
-           "repr(float)/float(str) pair (C level, trusted); strings containing '#' or surrounding blanks in geogram attributes")
+           "repr(float)/float(str) pair (C level, trusted); strings containing '#' or surrounding blanks in geogram attributes; dense string storage keeps 32 characters by design (the "
+           "round trip is compared with what the original attribute reads)")
 ASSUMPTIONS = ["coordinate tokens stand for arbitrary finite floats printed with the default format spec", "real file I/O in a private temporary directory"]
 STUBS = ["float / np.float64 in the importer modules -> parser that maps token numerals back to tokens (symbolic mode)"]
 WALL_S = {"quick": 420, "thorough": 1500}
@@ -417,7 +418,7 @@ def foreign(shapes, formats):
     return h
 
 
-VALUES = {"bool": [True, False, True], "int": [5, -3, 0], "float": [0.1, -2.5e-300, 1e200], "complex": [1 + 2j, -0.5j, 3 + 0j], "str": ["ab", "c", "xyz"]}
+VALUES = {"bool": [True, False, True], "int": [5, -3, 0], "float": [0.1, -2.5e-300, 1e200], "complex": [1 + 2j, -0.5j, 3 + 0j], "str": ["ab", "a-string-that-is-longer-than-thirty-two-characters", "xyz"]}
 PY = dict(bool=bool, int=int, float=float, complex=complex, str=str)
 
 
@@ -459,7 +460,7 @@ def geogram_attributes(containers):
             dflt = a.default_value
             good = True
             for i in range(n):
-                want = vals.get(i, dflt)
+                want = a[i]         # what the original attribute answers (dense string storage keeps 32 characters by design)
                 got = b[i]
                 if arity == 1:
                     good &= bool(got == want)
